@@ -619,7 +619,9 @@ func (w *World) OpenFile(name string, flag int, perm fs.FileMode) (*Handle, sysc
 	if e := w.simpleFault(op, f, mutIntent); e != 0 {
 		return nil, e
 	}
-	r, e := w.resolve(name, true)
+	// O_CREAT|O_EXCL does not follow a symlink in the last component
+	follow := !(flag&O_CREATE != 0 && flag&O_EXCL != 0)
+	r, e := w.resolve(name, follow)
 	fail := func(e syscall.Errno) (*Handle, syscall.Errno) {
 		op.Err = ErrnoName(e)
 		return nil, e
@@ -1191,17 +1193,23 @@ func (w *World) Rename(oldp, newp string) syscall.Errno {
 	if e := w.simpleFault(op, f, true); e != 0 {
 		return e
 	}
+	// the kernel resolves both parent directories before it looks up the last
+	// component of the old name
 	ro, e := w.resolve(oldp, false)
-	if e != 0 {
+	if e != 0 && !(e == syscall.ENOENT && ro.parent != nil) {
 		op.Err = ErrnoName(e)
 		return e
 	}
-	op.Ino = ro.node.Ino
 	rn, e2 := w.resolve(newp, false)
 	if e2 != 0 && !(e2 == syscall.ENOENT && rn.parent != nil) {
 		op.Err = ErrnoName(e2)
 		return e2
 	}
+	if e != 0 {
+		op.Err = ErrnoName(e)
+		return e
+	}
+	op.Ino = ro.node.Ino
 	if ro.parent == nil {
 		op.Err = "EBUSY"
 		return syscall.EBUSY
